@@ -41,6 +41,8 @@ def panel_values(panel):
         v = v.copy()
         v[n_dates - ln:] = float(np.round(v[n_dates - ln]))
     out.append(v)
+  for i, j in panel.get('copy', []):
+    out[j] = out[i].copy()          # two geos with bit-identical series (exact score ties)
   for i, j, shift in panel.get('mirror', []):
     # geo j = geo i run backwards in time plus a level shift: same spread (tied required impact), different mean
     out[j] = out[i][::-1] + float(shift)
@@ -103,6 +105,8 @@ def build_elig_frame(elig, rename=None, id_int=False):
     ids = [int(i) for i in ids]
   df = pd.DataFrame({'geo': ids, 'control': [r[1] for r in elig['rows']], 'treatment': [r[2] for r in elig['rows']],
                      'exclude': [r[3] for r in elig['rows']]})
+  if elig.get('col_order'):
+    df = df[['geo'] + list(elig['col_order'])] if elig.get('as_index') or sum(map(ord, elig['col_order'][0])) % 2 else df[list(elig['col_order']) + ['geo']]
   if elig.get('as_index'):
     df = df.set_index('geo')
   return df
@@ -148,7 +152,7 @@ def base_kwargs(spec):
   kw = {'n_test': spec['panel']['n_test'], 'iroas': p['iroas'], 'n_designs': p['n_designs']}
   for k in ('treatment_geos_range', 'control_geos_range'):
     if p.get(k) is not None:
-      kw[k] = tuple(p[k])
+      kw[k] = tuple(float(v) for v in p[k]) if p.get('float_ranges') else tuple(p[k])
   for k in ('geo_ratio_tolerance', 'volume_ratio_tolerance'):
     if p.get(k) is not None:
       kw[k] = _tol(p[k])
